@@ -52,11 +52,13 @@ def addr_of(i):
 def oracle_history(mops, replies, now):
     """C08 evaluated on the implementation's own answers. Returns (why, signature) or None."""
     cur = fin = None
+    sut = None
     for op, rep in zip(mops, replies):
         f = op.split()
         if f[0] in ("now", "P", "reset"):
             if f[0] == "reset":
                 cur = fin = None
+                sut = f[2]
             continue
         cls, ncur, nfin = dkggen.parse_reply(rep)
         if ncur is not None and "raw" in ncur or nfin is not None and "raw" in (nfin or {}):
@@ -82,6 +84,10 @@ def oracle_history(mops, replies, now):
         if ncur != cur and ncur is not None and ncur["state"] != src["state"]:
             if ncur["state"] not in TABLE[src["state"]]:
                 return (f"{op}: illegal transition {src['state']} -> {ncur['state']}", "illegal-transition")
+        # transitions are legal *for the node's role*: only the leader's operator starts the execution
+        if f[0] == "cmd" and f[1] == "execute" and cls == "ok" and ncur is not None and ncur["state"] == "Executing" \
+                and sut is not None and ncur["leader"] != "nil" and addr_of(ncur["leader"]) != addr_of(sut):
+            return (f"{op}: a node that is not the leader ({sut}, leader {ncur['leader']}) moved itself to Executing", "execute-by-non-leader")
         # epoch of the in-progress record
         if ncur is not None and cur is not None and ncur["epoch"] < cur["epoch"]:
             if cur["state"] in TERMINAL:
@@ -115,6 +121,8 @@ def oracle_history(mops, replies, now):
                     why = "a member accepted changed genesis parameters"
                 elif t["scheme"] != src["scheme"] or t.get("period", src["period"]) != src["period"]:
                     why = "a member accepted a changed scheme or beacon period"
+                elif len(set(addr_of(x) for x in t["R"] + t["V"])) != len(t["R"] + t["V"]) and not members <= {addr_of(x) for x in t["R"] + t["V"]}:
+                    why = "a member accepted a proposal that names a member twice and drops another"
                 elif not members <= named:
                     why = f"a member accepted a proposal dropping current members {sorted(members - named)}"
                 elif t["epoch"] != src["epoch"] + 1:
